@@ -102,6 +102,7 @@ type c02doc struct {
 	ifaces []*c02table
 	debug  *c02table
 	top    string // extra literal text in front (decode stream)
+	sep    string // extra literal text between two interface stanzas (volume stream)
 }
 
 func tq(s string) string {
@@ -156,7 +157,10 @@ func (t *c02table) render(b *strings.Builder, path, indent string) {
 func (d *c02doc) render() string {
 	var b strings.Builder
 	b.WriteString(d.top)
-	for _, ifi := range d.ifaces {
+	for k, ifi := range d.ifaces {
+		if k > 0 {
+			b.WriteString(d.sep)
+		}
 		b.WriteString("[[interfaces]]\n")
 		ifi.render(&b, "interfaces", "")
 		b.WriteString("\n")
@@ -1387,6 +1391,56 @@ func TestVerifC02(t *testing.T) {
 			desc = append(desc, m.key+" = "+class)
 		}
 		emitDoc(out, id, d, tags, strings.Join(desc, "; "))
+	}
+	// stream "volume": nothing in the documented constraints depends on how large the document or a list is.
+	// (a) documents of more than 1 MiB (padding comments before the stanzas, between them, or before an invalid
+	// last stanza); (b) 9..40 prefix / route stanzas on one interface, disjoint, or with one overlapping pair that
+	// is far apart in the list and has unrelated entries sorting between its two members
+	{
+		pad := strings.Repeat("# "+strings.Repeat("padding ", 15)+"\n", 10000) // ~1.2 MiB
+		mk := func(name string) *c02table {
+			return newTable().setS("name", name).setB("advertise", true)
+		}
+		big := []struct {
+			id   string
+			d    *c02doc
+			desc string
+		}{
+			{"c02-volume-pad-first", &c02doc{top: pad, ifaces: []*c02table{mk("eth0"), mk("eth1")}}, "1.2 MiB of comments, then two valid interfaces"},
+			{"c02-volume-pad-dup", &c02doc{top: pad, ifaces: []*c02table{mk("eth0"), mk("eth0")}}, "1.2 MiB of comments, then a duplicate interface"},
+			{"c02-volume-pad-badmax", &c02doc{top: pad, ifaces: []*c02table{mk("eth0").setS("max_interval", "1801s")}}, "1.2 MiB of comments, then max_interval out of range"},
+		}
+		for _, b := range big {
+			emitDoc(out, b.id, b.d, []string{"stream:volume", "volume:large-document"}, b.desc)
+		}
+		// a valid interface, then padding, then a stanza that decides
+		for k, tail := range []*c02table{mk("eth9"), mk("eth0"), mk("eth9").setB("monitor", true)} {
+			first := mk("eth0")
+			dd := &c02doc{ifaces: []*c02table{first, tail}, sep: pad}
+			emitDoc(out, fmt.Sprintf("c02-volume-pad-middle-%d", k), dd, []string{"stream:volume", "volume:large-document"}, "valid interface, 1.2 MiB of comments, then a deciding stanza")
+		}
+		for _, kind := range []string{"prefix", "route"} {
+			for _, n := range []int{9, 10, 17, 40} {
+				for _, overlap := range []bool{false, true} {
+					a := mk("eth0")
+					var cidrs []string
+					for j := 0; j < n; j++ {
+						cidrs = append(cidrs, fmt.Sprintf("2001:db8:%x::/64", 0x100+j*3))
+					}
+					if overlap {
+						// a /48 and a /64 inside it, with entries of other /48s between them in every sort order by address
+						cidrs[0] = "2001:db8:ffff::/48"
+						cidrs[n-1] = "2001:db8:ffff:1::/64"
+						cidrs[n/2] = "2001:db8:ffff::/64" // identical base address, different length
+					}
+					for _, c := range cidrs {
+						a.add(kind, newTable().setS("prefix", c))
+					}
+					emitDoc(out, fmt.Sprintf("c02-volume-%s-%d-%v", kind, n, overlap), &c02doc{ifaces: []*c02table{a}},
+						[]string{"stream:volume", "volume:many-" + kind}, fmt.Sprintf("%d %s stanzas, overlapping pair: %v", n, kind, overlap))
+				}
+			}
+		}
 	}
 	emitDoc(out, "c02-empty", &c02doc{}, []string{"stream:corpus"}, "no interfaces")
 	emitDoc(out, "c02-empty-debug", &c02doc{debug: newTable().setS("address", ":9430")}, []string{"stream:corpus"}, "no interfaces, debug only")
